@@ -324,7 +324,7 @@ func c14Run(tb *testing.T, t *rapid.T, vk *vkCtx, protos []cpxProto) {
 	ops := []string{"none", "none", "none", "none", "commit", "commit", "reload", "reopen", "park", "flush", "prune"}
 	var script cpxScript
 	for b := 0; b < nBlocks; b++ {
-		info := cpxScriptedBlock(w, t, &script, 4)
+		info := cpxScriptedBlock(w, t, &script, 4, vk.Excluded)
 		for _, cn := range c.nodes[1:] {
 			cpxFeed(t, cn.n, info.Block)
 		}
